@@ -6,6 +6,7 @@
     a printed f32 is a non-empty text without a blank, the other printed texts do not start or
     end with XML white space.  They are validated differentially on every run, never proved. *)
 Require Import Norad.Model.Designspace Norad.Proofs.DsXmlP Norad.Proofs.DesignspaceP.
+Require Import Norad.Model.DsSchema Norad.Proofs.DsSchemaP.
 Open Scope string_scope.
 
 (** The full-strength statement: every well-formed document survives save + load.  [ds_wf] is
@@ -88,3 +89,54 @@ Example C18_vocabulary_is_used :
   same_names (names_of_node (ds_encode toy full_doc)) vocab_names = true /\
   ds_decode toy (ds_encode toy full_doc) = Some full_doc.
 Proof. exact (conj full_doc_uses_vocab full_doc_roundtrip). Qed.
+
+(** ** The serde schema table (Model/DsSchema.v; regenerated from the source and re-checked on every
+    run in Anchors/AnchorsOK_C18.v).
+
+    The flat attribute codec gives skip_serializing_if / default on attributes their meaning: it
+    round-trips whenever every value the writer leaves out is the value the reader supplies for an
+    absent attribute and the keys are distinct ... *)
+Theorem C18_flags_attr_roundtrip : forall fs vs,
+  aflat_ok fs = true -> awt_all fs vs = true -> aread fs (awrite fs vs) = Some vs.
+Proof. exact aflat_rt. Qed.
+(** ... and not otherwise: skip-if-false with a read default of true loses the value false. *)
+Theorem C18_flags_refuted_without_check :
+  ~ (forall fs vs, awt_all fs vs = true -> aread fs (awrite fs vs) = Some vs).
+Proof. exact flag_check_not_vacuous. Qed.
+Example C18_flags_bad_examples :
+  aflat_ok bad_flat = false /\
+  aread bad_flat (awrite bad_flat [Some "false"; Some "x"]) = Some [Some "true"; Some "x"] /\
+  field_verdict ds_helpers bad_field_1 = VBad /\ field_verdict ds_helpers bad_field_2 = VBad /\
+  field_verdict ds_helpers bad_field_3 = VNeedNonEmpty.
+Proof.
+  exact (conj bad_flat_refused (conj (proj2 bad_flat_loses_a_value) bad_fields_flagged)).
+Qed.
+(** The table of this tree passes the flag check; the hypotheses on values it leaves are the eight
+    of [ds_expected_hyps]; the flat views of all structs round-trip. *)
+Theorem C18_schema_flags_ok :
+  ds_schema_rt_ok ds_helpers ds_schema = true /\ ds_hyps ds_helpers ds_schema = ds_expected_hyps /\
+  forallb (fun st => aflat_ok (attr_view st)) ds_schema = true.
+Proof. exact (conj ds_schema_ok (conj ds_schema_hyps ds_attr_views_ok)). Qed.
+(** [ds_wf] (the hypothesis of C18_roundtrip) is exactly: those eight hypotheses ([ds_flag_hyps], one
+    conjunct per table entry) and the type invariants of the Rust values ([ds_type_inv]: valid glyph
+    names in substitutions, unique dictionary keys, integers in range). *)
+Theorem C18_wf_is_flag_hypotheses_and_type_invariants : forall L (d : doc L),
+  ds_wf L d <-> ds_flag_hyps L d = true /\ ds_type_inv L d = true.
+Proof. exact ds_wf_is_flags_and_invariants. Qed.
+(** The hand-written encoder writes, for every struct, the attributes the table prescribes (the flat
+    writer over the table's attribute fields); shown here for Axis, Source, Instance, Dimension. *)
+Theorem C18_encoder_attrs_follow_table : forall L,
+  (forall a, attrs_of (enc_axis L a) = awrite (attr_view_of "Axis") (axis_vals L a)) /\
+  (forall s, attrs_of (enc_source L s) =
+             awrite (attr_view_of "Source") [s_familyname L s; s_stylename L s; s_name L s; Some (s_filename L s); s_layer L s]) /\
+  (forall i, attrs_of (enc_instance L i) =
+             awrite (attr_view_of "Instance")
+                    [i_familyname L i; i_stylename L i; i_name L i; i_filename L i; i_postscriptfontname L i;
+                     i_stylemapfamilyname L i; i_stylemapstylename L i]) /\
+  (forall d, attrs_of (enc_dimension L d) =
+             awrite (attr_view_of "Dimension")
+                    [Some (d_name L d); option_map (l_f32_print L) (d_uservalue L d);
+                     option_map (l_f32_print L) (d_xvalue L d); option_map (l_f32_print L) (d_yvalue L d)]).
+Proof.
+  intros L. exact (conj (enc_axis_attrs L) (conj (enc_source_attrs L) (conj (enc_instance_attrs L) (enc_dimension_attrs L)))).
+Qed.
